@@ -240,7 +240,7 @@ impl M2PhysicsData {
         let joints_offset = reader.read_u32_le()?;
 
         // Parse physics shapes
-        let mut shapes = Vec::with_capacity(shapes_count as usize);
+        let mut shapes = Vec::with_capacity(crate::common::bounded_capacity(shapes_count as usize));
         if shapes_count > 0 {
             reader.seek(std::io::SeekFrom::Start(shapes_offset as u64))?;
             for _ in 0..shapes_count {
@@ -249,7 +249,7 @@ impl M2PhysicsData {
         }
 
         // Parse physics bodies
-        let mut bodies = Vec::with_capacity(bodies_count as usize);
+        let mut bodies = Vec::with_capacity(crate::common::bounded_capacity(bodies_count as usize));
         if bodies_count > 0 {
             reader.seek(std::io::SeekFrom::Start(bodies_offset as u64))?;
             for _ in 0..bodies_count {
@@ -258,7 +258,7 @@ impl M2PhysicsData {
         }
 
         // Parse physics joints
-        let mut joints = Vec::with_capacity(joints_count as usize);
+        let mut joints = Vec::with_capacity(crate::common::bounded_capacity(joints_count as usize));
         if joints_count > 0 {
             reader.seek(std::io::SeekFrom::Start(joints_offset as u64))?;
             for _ in 0..joints_count {
